@@ -47,6 +47,9 @@ pub mod types;
 mod parsing;
 mod parsing_reader;
 
+#[cfg(feature = "verif-hooks")]
+pub mod verif_hooks;
+
 /// The version of this crate.
 pub const VERSION: &str = env!("CARGO_PKG_VERSION");
 
